@@ -9,7 +9,24 @@ BASE_NOTE = ("Trusted base: TLC + CommunityModules, CPython/asyncio/ElementTree,
              "on the seeded conformance runs.")
 
 CODEC_TECH = "TLA+ spec (Codec.tla) + TLC case enumeration with theorem checking; one implementation test per TLC-generated case"
+BUF_TECH = ("TLA+ spec (BufferAlgo.tla char-level + Framing.tla contract) + TLC exhaustive model checking; "
+            "TLC trace validation of real Buffer calls (TraceBuffer.tla, TraceFraming.tla)")
 CHECKS = {
+    "C02": dict(
+        text="BufferAlgo.tla models buffer.py character by character over a mini-XML alphabet with its own XML recogniser (one action per "
+             "critical section); TLC checks every concatenation of catalogue segments x every cut set x thresholds against Framing.tla's "
+             "contract (lossless, ordered, prompt for clean streams). The real Buffer, with real classes registered for the mini tags, is run "
+             "on the same space and on longer random streams and every process() call must be explained by the model (count and content of "
+             "deliveries, retained length). Real INDI messages in 64 foreign spellings with clean junk are cut exhaustively (1-, 2-cut), char "
+             "by char, at 1024 and randomly, thresholds {16,128,2048,disabled}, and validated against the same contract by TraceFraming.tla.",
+        design="6/C02", technique=BUF_TECH),
+    "C11": dict(
+        text="Same model and traces as C02 with the dirty part of the catalogue (truncations, unclosed and imitation elements, stray markup, "
+             "complete-but-invalid elements): TLC checks termination as a variant bound (Bounded), OnlyMessages, Retained, InOrder, Recovers; the "
+             "as-is loop (AsIsLoopExit) is shown to violate them. Real-world: Latin-1 junk from protocol fragments, hostile well-formed elements "
+             "and real messages truncated at every position, all fragmentations; per call: no raise, no non-termination (callback watchdog), "
+             "only genuine messages, retention bound, order, recovery - validated by TraceFraming.tla.",
+        design="6/C11", technique=BUF_TECH),
     "C03": dict(
         text="Codec.tla transcribes the serialiser/parser at infoset level (dispatch on tag, required attributes, vocabularies, child "
              "kinds, number syntax, dropped unknown attributes, trimmed text, empty = absent). TLC enumerates every valid message of "
